@@ -8,6 +8,8 @@ CONSTANTS
   GeCmp = TRUE
   AwaitStop = TRUE
   NotifyPop = FALSE
+  ReleaseOnEnd = TRUE
+  Faults = TRUE
   MaxOps = 1
   MaxCancel = 0
   Depth = 0
